@@ -97,6 +97,8 @@ class Table(dict):
             return
         if self.has_index():
             buffer_df = pd.DataFrame(self.buffer, columns=self.columns)
+            # the same key inserted twice before a commit: the last row wins, as it does across commits
+            buffer_df = buffer_df.drop_duplicates(subset=self.idx_cols, keep='last')
             buffer_df = self._create_index_from_cols(buffer_df, self.idx_cols)
 
             # Update existing rows and append new rows
